@@ -348,6 +348,30 @@ func c18Run(c *engine.Ctx) {
 		{"fragment", "https://example.com/users/1#main"}, {"identical", base}} {
 		refuse("equivalent-id-"+v.dim, good, side{"*Object(Note) id=" + v.id, obj(v.id, "Note")}, false)
 	}
+	// every ordered pair of distinct vocabulary names, each side built with the struct the vocabulary assigns to its name:
+	// `to` typed differently from `from` must be refused whatever the two types are
+	mkTyped := func(name string) func() ap.Item {
+		return func() ap.Item {
+			st := universe.ByName(c07Vocabulary[name][0])
+			p := reflect.New(st.Type)
+			p.Elem().FieldByName("ID").Set(reflect.ValueOf(ap.IRI(base)))
+			p.Elem().FieldByName("Type").Set(reflect.ValueOf(ap.ActivityVocabularyType(name)))
+			p.Elem().FieldByName("Name").Set(reflect.ValueOf(ap.NaturalLanguageValues{{Ref: "-", Value: ap.Content("keep " + name)}}))
+			return p.Interface().(ap.Item)
+		}
+	}
+	var vocab []string
+	for n := range c07Vocabulary {
+		vocab = append(vocab, n)
+	}
+	sortStrings(vocab)
+	for _, a := range vocab {
+		for _, b := range vocab {
+			if a != b {
+				refuse("type-differs|"+a+"-vs-"+b, side{"*" + c07Vocabulary[a][0] + "(" + a + ")", mkTyped(a)}, side{"*" + c07Vocabulary[b][0] + "(" + b + ")", mkTyped(b)}, true)
+			}
+		}
+	}
 	refuse("type-differs", good, side{"*Object(Article)", obj(base, "Article")}, true)
 	refuse("type-differs-from-typeless", good, side{"*Object(type-less)", obj(base, "")}, true)
 	refuse("type-differs-case", good, side{"*Object(note)", obj(base, "note")}, true)
